@@ -37,7 +37,7 @@ OPTSETS = [
 
 def floors(tier):
     k = 1 if tier == "quick" else 8
-    fl = {"suites_run": 12 * k, "tests_executed": 4000 * k}
+    fl = {"suites_run": 12 * k, "tests_executed": 4000 * k, "direct_imports_resolved": 200 * k, "iam_types_used_directly": 2 * k}
     fl.update({"optset:" + label: 1 for label, _o, _m in OPTSETS})
     return fl
 
@@ -53,7 +53,13 @@ def build_api(case):
     rng = random.Random(case["seed"])
     apigen.NO_REP_BOOL[0] = True            # DESIGN §8.2
     try:
-        api = apigen.conventional(rng, "q%d" % (case["seed"] % 100000), {"exotic": False, "ns": ["vp"], "shuffle_numbers": True})
+        lbl, o_, mx_ = OPTSETS[case["optset"]]
+        # google.iam.v1 types used directly (no IAM mixin, no add-iam-methods): the declared dependencies must then name the IAM package
+        iam_direct = None
+        if "iam" not in (mx_ or []) and "add-iam-methods" not in o_ and rng.random() < 0.45:
+            iam_direct = rng.choice(["field", "rpcs"])
+        api = apigen.conventional(rng, "q%d" % (case["seed"] % 100000), {"exotic": False, "ns": ["vp"], "shuffle_numbers": True,
+                                                                           "iam_direct": iam_direct})
     finally:
         apigen.NO_REP_BOOL[0] = False
     label, opts, mixins = OPTSETS[case["optset"]]
@@ -131,6 +137,19 @@ def run_case(case):
             elif ch.tag == "skipped":
                 skipped += 1
     viol = []
+    # "with the declared runtime dependencies": every google.* module the emitted package and its emitted tests import belongs to a
+    # distribution in the closure of setup.py's `dependencies` (monitor shared with C01)
+    from checks import c01
+    root_pkg = sorted({f.name.split("/services/")[0].replace("/", ".") for f in g.response.file if "/services/" in f.name
+                       and f.name.endswith(".py") and not f.name.startswith(("tests/", "samples/", "docs/"))}, key=len)[0]
+    declared, direct = c01.declared_and_direct_imports(g.response, root_pkg, api.synth_deps if case["kind"] != "speech" else None,
+                                                       also=("tests/unit/",))
+    dev, drc, derr = pipeline.run_runner("checks.c13", {"root_pkg": root_pkg, "declared": declared, "direct_imports": direct, "skip_preimport": True}, lib, timeout=200)
+    dep = (dev or {}).get("dependency_monitor") or {}
+    if declared is None:
+        viol.append({"clause": "setup-py-dependencies-unreadable", "detail": "no literal `dependencies = [...]` in setup.py", "mech": mech})
+    for u in dep.get("undeclared", []):
+        viol.append({"clause": "imports-undeclared-dependency", "detail": u, "mech": {**mech, "distribution": u.get("distribution")}})
     if total == 0:
         viol.append({"clause": "no-tests-ran", "detail": {"stdout": p.stdout.decode("utf-8", "replace")[-500:]}, "mech": mech})
     for w in witnesses[:6]:
@@ -142,8 +161,23 @@ def run_case(case):
             viol.append({"clause": "emitted-test-module-not-collected", "detail": {"file": f, "collected": sorted(collected)[:5]}, "mech": mech})
     return {"verdict": "violated" if viol else "held", "violations": viol, "evaluations": total,
             "nontrivial_sigs": [] if viol else [{"tags": sorted(tags), "optset": label}],
-            "counters": {"suites_run": 1, "tests_executed": total, "tests_skipped": skipped, "optset:" + label: 1},
+            "counters": {"suites_run": 1, "tests_executed": total, "tests_skipped": skipped, "optset:" + label: 1,
+                         "direct_imports_resolved": dep.get("resolved", 0),
+                         "iam_types_used_directly": int(any(t.startswith("iam-types-used-directly") for t in tags))},
             "sample": {"optset": label, "tests": total, "failures": fails, "errors": errs, "skipped": skipped, "modules": emitted}}
+
+
+def in_runner(script):
+    import sys
+    from checks import c01
+    libroot = None
+    for p in sys.path:
+        if p and os.path.isdir(os.path.join(p, script["root_pkg"].split(".")[0])):
+            libroot = p
+    try:
+        return {"dependency_monitor": c01.dependency_monitor(script.get("declared"), script.get("direct_imports") or [], libroot)}
+    except BaseException as e:  # noqa
+        return {"dependency_monitor": {"error": f"{type(e).__name__}: {e}"[:300], "resolved": 0, "undeclared": []}}
 
 
 def extra_coverage(results, tier):
